@@ -42,9 +42,9 @@ ASSUMPTIONS = [
     'SDP elements with non-minimal size descriptors are well-formed: checked for value and re-serialisation of the parsed object only',
 ]
 MIN_EVENTS = {
-    'quick': {'oracle_evals': 200000, 'instances': 30000, 'layout_checks': 30000, 'from_bytes_checks': 25000,
-              'rebuild_checks': 20000, 'pollution_steps': 3000, 'ertm_fields': 5000, 'rfcomm_frames': 2000,
-              'sdp_elements': 3000, 'sdp_size_boundaries': 16, 'uuid_ops': 3000, 'inst_l2cap-sig': 3000, 'inst_att': 5000,
+    'quick': {'oracle_evals': 400000, 'instances': 80000, 'layout_checks': 80000, 'from_bytes_checks': 80000,
+              'rebuild_checks': 60000, 'pollution_steps': 3000, 'ertm_fields': 5000, 'rfcomm_frames': 2000,
+              'sdp_elements': 3000, 'sdp_size_boundaries': 16, 'uuid_ops': 1500, 'inst_l2cap-sig': 3000, 'inst_att': 5000,
               'inst_smp': 2000, 'inst_sdp-pdu': 1000, 'inst_avdtp': 6000, 'inst_avrcp-cmd': 3000, 'inst_avrcp-rsp': 3000,
               'inst_avrcp-evt': 1000, 'inst_avrcp-item': 500},
     'thorough': {'oracle_evals': 3000000, 'instances': 500000, 'layout_checks': 500000, 'from_bytes_checks': 400000,
@@ -58,8 +58,8 @@ SHARD_TIMEOUT = {'quick': 900, 'thorough': 7200}
 
 
 def plan(tier, seed):
-    n = 48 if tier == 'quick' else 480
-    per = 4 if tier == 'quick' else 8
+    n = 48 if tier == 'quick' else 640
+    per = 8 if tier == 'quick' else 24
     cases = [{'kind': 'mix', 'seed': seed * 100003 + i, 'per_unit': per} for i in range(n)]
     cases.append({'kind': 'ertm-all', 'seed': seed})
     cases.append({'kind': 'rfcomm-grid', 'seed': seed})
@@ -117,7 +117,12 @@ class Ev:
         self.r.bad(key, detail() if callable(detail) else detail)
 
     def bad(self, clause, disc, detail, unit=None):
-        self._report(key_of(self.fam, unit or self.unit, clause, disc), detail)
+        unit = unit or self.unit
+        if disc and disc.startswith('capabilities:'):
+            # the capability list is one sub-codec shared by six AVDTP messages
+            det = detail
+            unit, disc, detail = 'capabilities', disc[len('capabilities:'):], (lambda: f'{self.unit}: ' + (det() if callable(det) else det))
+        self._report(key_of(self.fam, unit, clause, disc), detail)
 
     def check(self, cond, clause, disc, detail, unit=None):
         self.r.ev('oracle_evals')
@@ -144,6 +149,11 @@ class Ev:
         except Exception as e:  # noqa
             self.r.ev('oracle_evals')
             msg = f'{type(e).__name__}: {e} :: '
+            if isinstance(e, TypeError) and 'incompatible UUID type' in str(e):
+                # a UUID list class refusing what UUID.from_bytes handed back: width changed
+                self._report(key_of(self.fam, 'uuid-field', f'{clause}-raises', 'width-changed'),
+                             lambda: f'{self.unit}: ' + msg + (detail() if callable(detail) else detail))
+                return False, None
             self.bad(f'{clause}-raises', f'{disc + "/" if disc else ""}{type(e).__name__}',
                      lambda: msg + (detail() if callable(detail) else detail))
             return False, None
@@ -1035,9 +1045,7 @@ def rfcomm_one(ev: Ev, ftype_name, c_r, dlci, p_f, payload: bytes, credits):
                                 'uih': RU.RFCOMM_UIH}[ftype_name]), c_r, dlci, p_f, payload, credits)
     unit = 'uih-credit' if credits is not None else ftype_name
     n = len(payload)
-    disc = 'len1' if n <= 127 else 'len2'
-    if n in (126, 127, 128, 129):
-        disc += f'/payload={n}'
+    disc = 'payload=127' if n == 127 else ('len1' if n <= 127 else 'len2')
     info = (bytes([credits]) if credits is not None else b'') + payload
     r.sig('rfcomm', unit, disc, c_r, p_f, dlci == 0)
     what = lambda: f'{unit} c_r={c_r} dlci={dlci} p_f={p_f} payload={n} octets credits={credits} ref={hx(ref, 60)}'  # noqa
@@ -1245,7 +1253,7 @@ def ev_avc(ev: Ev, unit):
         args = (avc.Frame.OperationCode(opcode), operands)
     if unit == 'extended-subunit':
         sid = rng.choice([5 + 1, 5 + 0xFE, 5 + 254 + 0, 5 + 254 + 7, rng.randint(6, 5 + 254 + 255)])
-        disc = 'ext1' if sid <= 5 + 254 else 'ext2'
+        disc = 'extended-subunit-id'
     ref = RU.avc_frame(code, st, sid, opcode, operands)
     cls = getattr(avc, unit) if hasattr(avc, unit) else (avc.CommandFrame if is_cmd else avc.ResponseFrame)
     r.sig('avc', unit, disc, code, sid)
@@ -1318,6 +1326,9 @@ def ev_avrcp_special(ev: Ev, unit):
         name = rng.choice(sorted(set(F.classes()) & set(F.ref)))
         fields = F.fields(name)
         values = RU.gen_fields(fields, rng)
+        if name == 'PlayerApplicationSettingChangedEvent':
+            # extension attribute ids are exercised by the avrcp-evt unit itself
+            values = [[((1 + (a - 1) % 4, v),) for ((a, v),) in values[0]]]
         ref = F.frame(name, {}, RU.enc_fields(fields, values))
         r.sig('avrcp-special', unit, name)
         what = lambda: f'{unit}({name}) values={short(values, 200)} ref={hx(ref, 80)}'  # noqa
@@ -1357,7 +1368,8 @@ def ev_avrcp_special(ev: Ev, unit):
             ok, b1 = ev.guarded('serialise', disc, lambda: bytes(obj), what)
         if ok:
             r.ev('layout_checks')
-            ev.check(b1 == ref, 'layout', disc, lambda: f'{what()} bumble={hx(b1, 120)}')
+            wrong = next((n for n, it, ir in zip(names, obj.items, item_refs) if bytes(it) != ir), None)
+            ev.check(b1 == ref, 'layout', f'item:{wrong}' if wrong else 'header', lambda: f'{what()} bumble={hx(b1, 120)}')
         r.ev('from_bytes_checks')
         okp, p = ev.guarded('from-bytes/parse', disc, lambda: avrcp.Response.from_bytes(ref, avrcp.PduId.GET_FOLDER_ITEMS), what)
         if okp:
@@ -1709,7 +1721,7 @@ def ev_uuid(ev: Ev, unit):
         name = rng.choice([None, None, 'c18'])
         okp, u = ev.guarded('from-bytes/parse', cl, lambda: UUID.from_bytes(le, name) if name else UUID.from_bytes(le), what)
         if okp:
-            ev.check(bytes(u) == le, 'from-bytes/width', cl, lambda: f'{what()} from_bytes returned a UUID of {len(bytes(u))} octets: {bytes(u).hex()}')
+            ev.check(bytes(u) == le, 'width', cl, lambda: f'{what()} from_bytes returned a UUID of {len(bytes(u))} octets: {bytes(u).hex()}', unit='from_bytes')
             ev.check(u.to_bytes(force_128=True) == RU.uuid_expand(le), 'from-bytes/value', cl, lambda: f'{what()} 128-bit form {u.to_bytes(True).hex()}')
             ev.check(u.to_pdu_bytes() == (RU.uuid_expand(le) if len(le) == 4 else le), 'from-bytes/att-form', cl,
                      lambda: f'{what()} to_pdu_bytes={u.to_pdu_bytes().hex()}')
@@ -1717,20 +1729,20 @@ def ev_uuid(ev: Ev, unit):
         off = rng.choice([0, 2])
         okp, res = ev.guarded('from-bytes/parse', 'parse_uuid', lambda: UUID.parse_uuid(bytes(off) + le, off), what)
         if okp:
-            ev.check(res[0] == off + len(le) and bytes(res[1]) == le, 'from-bytes/width', f'parse_uuid/{cl}', lambda: f'{what()} parse_uuid -> ({res[0]}, {bytes(res[1]).hex()})')
+            ev.check(res[0] == off + len(le) and bytes(res[1]) == le, 'width', f'parse_uuid/{cl}', lambda: f'{what()} parse_uuid -> ({res[0]}, {bytes(res[1]).hex()})')
         if len(le) == 2:
             okp, res = ev.guarded('from-bytes/parse', 'parse_uuid_2', lambda: UUID.parse_uuid_2(b'\x01' + le + b'\x02\x03', 1), what)
             if okp:
-                ev.check(res[0] == 3 and bytes(res[1]) == le, 'from-bytes/width', f'parse_uuid_2/{cl}', lambda: f'{what()} parse_uuid_2 -> ({res[0]}, {bytes(res[1]).hex()})')
+                ev.check(res[0] == 3 and bytes(res[1]) == le, 'width', f'parse_uuid_2/{cl}', lambda: f'{what()} parse_uuid_2 -> ({res[0]}, {bytes(res[1]).hex()})')
             v = int.from_bytes(le, 'little')
             okp, u = ev.guarded('from-bytes/parse', 'from_16_bits', lambda: UUID.from_16_bits(v), what)
             if okp:
-                ev.check(bytes(u) == le, 'from-bytes/width', f'from_16_bits/{cl}', lambda: f'{what()} from_16_bits -> {bytes(u).hex()}')
+                ev.check(bytes(u) == le, 'width', f'from_16_bits/{cl}', lambda: f'{what()} from_16_bits -> {bytes(u).hex()}')
         if len(le) == 4:
             v = int.from_bytes(le, 'little')
             okp, u = ev.guarded('from-bytes/parse', 'from_32_bits', lambda: UUID.from_32_bits(v), what)
             if okp:
-                ev.check(bytes(u) == le, 'from-bytes/width', f'from_32_bits/{cl}', lambda: f'{what()} from_32_bits -> {bytes(u).hex()}')
+                ev.check(bytes(u) == le, 'width', f'from_32_bits/{cl}', lambda: f'{what()} from_32_bits -> {bytes(u).hex()}')
         return
     if unit == 'int':
         v = rng.choice(RU.UUID16_POOL + [0, 0xFFFF, rng.getrandbits(16)])
@@ -1755,7 +1767,7 @@ def ev_uuid(ev: Ev, unit):
         r.ev('from_bytes_checks')
         okp, u2 = ev.guarded('from-bytes/parse', cl, lambda: UUID.from_bytes(bytes(u)), what)
         if okp:
-            ev.check(bytes(u2) == le, 'from-bytes/width', cl, lambda: f'{what()} from_bytes(bytes(UUID({s!r}))) has {len(bytes(u2))} octets')
+            ev.check(bytes(u2) == le, 'width', cl, lambda: f'{what()} from_bytes(bytes(UUID({s!r}))) has {len(bytes(u2))} octets', unit='from_bytes')
             ev.check(u2 == u and (u == s) and u2.to_hex_str('-') == text, 'from-bytes/value', cl, lambda: f'{what()} {u2!r} vs {u!r}')
 
 
@@ -1926,6 +1938,8 @@ _SOLO = _SoloServer()
 
 def solo_keys(item) -> set | None:
     """violation keys of the item evaluated alone in a fresh process"""
+    if os.environ.get('C18_NO_SOLO'):  # triage aid only: keys then carry no history suffix
+        return None
     return _SOLO.ask(item)
 
 
